@@ -261,7 +261,7 @@ def shards(tier):
     quick = tier == 'quick'
     out = [{'mode': 'grid', 'part': i, 'parts': 4} for i in range(4)]
     for _ in range(12 if quick else 60):
-        out.append({'mode': 'gen', 'examples': 400 if quick else 3000})
+        out.append({'mode': 'gen', 'examples': 1000 if quick else 8000})
     return out
 
 
